@@ -178,7 +178,8 @@ Rt(e) ==
   /\ (IF e.save = "ok" /\ e.ml = 1 THEN ModelLayer(e, SpecPicture(e.fmt, e.bytes), [k \in 1..2 |-> ToSet(e.src.blank[k])], [k \in 1..2 |-> ToSet(e.src.solid[k])]) ELSE TRUE)
 Rs(e) ==
   /\ Bump(5)
-  /\ (IF e.save = "ok" /\ e.l2 = "ok" THEN Bump(7) /\ PictureEq(e.p1, e.p2, e, "Resave") ELSE Bump(8))
+  \* judged when the first load is a picture at all (positive size) and it could be saved and loaded again
+  /\ (IF e.save = "ok" /\ e.l2 = "ok" /\ e.p1.w >= 1 /\ e.p1.h >= 1 THEN Bump(7) /\ PictureEq(e.p1, e.p2, e, "Resave") ELSE Bump(8))
 
 Step(e) == CASE e.ev = "rt" -> Rt(e)
              [] e.ev = "rs" -> Rs(e)
